@@ -1,0 +1,36 @@
+//go:build verif
+
+package suggestion_goptuna_v1beta1
+
+// VerifTrialMapping returns a copy of the Katib trial name -> Goptuna trial id mapping (verification harness only).
+func (s *SuggestionService) VerifTrialMapping() map[string]int {
+	s.mu.RLock()
+	defer s.mu.RUnlock()
+	m := make(map[string]int, len(s.trialMapping))
+	for k, v := range s.trialMapping {
+		m[k] = v
+	}
+	return m
+}
+
+// VerifStudyTrials returns id, state and external parameters of every trial of the study (verification harness only).
+func (s *SuggestionService) VerifStudyTrials() ([]int, []string, []map[string]interface{}) {
+	s.mu.RLock()
+	defer s.mu.RUnlock()
+	if s.study == nil {
+		return nil, nil, nil
+	}
+	trials, err := s.study.GetTrials()
+	if err != nil {
+		return nil, nil, nil
+	}
+	ids := make([]int, 0, len(trials))
+	states := make([]string, 0, len(trials))
+	params := make([]map[string]interface{}, 0, len(trials))
+	for _, t := range trials {
+		ids = append(ids, t.ID)
+		states = append(states, t.State.String())
+		params = append(params, t.Params)
+	}
+	return ids, states, params
+}
